@@ -14,7 +14,7 @@ use serde::{Deserialize, Serialize};
 pub const INFO: PropInfo = PropInfo {
     id: "C05",
     level: "exploration",
-    rule: "cases = (directory tree, pattern word, noglob, cd). Tree: <=12 entries, depth <=3, names from {a b ab .a .b - [ * a] ? sub 'a b' \\x a\\b}: regular files, directories (some without search permission, mode 644), symbolic links (to file, to directory, dangling, relative with ../, absolute, to . and .., self-loop). Word: 1-3 components joined by / or //, optional prefix ./ ../ /work/ .// ../work/ /work/sub/../ or a tilde expansion `~/` with HOME naming a directory whose name may contain * [ \\ or a blank, optional trailing /, component text over {a b s u . - * ? [ ] !} with quoted segments ('..', \"..\", \\c) and parts coming from an unquoted ${v} (active pattern characters, backslash escapes) or a quoted \"${v}\" (literal); 45% of the random words are obtained by generalising the components of a path that exists in the tree (name -> *, x*, *x, one character -> ?, [x]rest, [!y]rest, quoted name, ${v}). The real shell runs `probe WORD` (optionally after `set -f` / `cd sub`) on the simulated OS with the tree under /work; the argument list the probe receives must be the model's: every existing pathname that matches component-wise (leading-period rule, slash only literally, quoted characters literal, . and .. only by literal components), strictly ascending in byte order (=> no duplicate), nothing else; or the word with quotes removed if nothing matches / noglob / no active wildcard. Exhaustive part: 4 (thorough 6) fixed trees x all patterns of <=2 components (thorough: also 3 components over the first 14) over a fixed component alphabet of 26 (thorough 54), plus every 1-component pattern under noglob and after cd; random part: proptest (tree, word) pairs with shrinking. Non-trivial = the word has >=1 component with an active wildcard AND some wildcard component matched >=1 directory entry of the tree (which implies that every earlier component was matched by the tree); distinct by serialised case.",
+    rule: "cases = (directory tree, pattern word, noglob, cd). Tree: <=12 entries, depth <=3, names from {a b ab .a .b - [ * a] ? sub 'a b' \\x a\\b}: regular files, directories (some without search permission for the owner: modes 644, 655, 611; searchable ones 755, 700, 711), symbolic links (to file, to directory, dangling, relative with ../, absolute, to . and .., self-loop). Word: 1-3 components joined by / or //, optional prefix ./ ../ /work/ .// ../work/ /work/sub/../ or a tilde expansion `~/` with HOME naming a directory whose name may contain * [ \\ or a blank, optional trailing /, component text over {a b s u . - * ? [ ] !} with quoted segments ('..', \"..\", \\c) and parts coming from an unquoted ${v} (active pattern characters, backslash escapes) or a quoted \"${v}\" (literal); 45% of the random words are obtained by generalising the components of a path that exists in the tree (name -> *, x*, *x, one character -> ?, [x]rest, [!y]rest, quoted name, ${v}). The real shell runs `probe WORD` (optionally after `set -f` / `cd sub`) on the simulated OS with the tree under /work; the argument list the probe receives must be the model's: every existing pathname that matches component-wise (leading-period rule, slash only literally, quoted characters literal, . and .. only by literal components), strictly ascending in byte order (=> no duplicate), nothing else; or the word with quotes removed if nothing matches / noglob / no active wildcard. Exhaustive part: 4 (thorough 6) fixed trees x all patterns of <=2 components (thorough: also 3 components over the first 14) over a fixed component alphabet of 26 (thorough 54), plus every 1-component pattern under noglob and after cd; random part: proptest (tree, word) pairs with shrinking. Non-trivial = the word has >=1 component with an active wildcard AND some wildcard component matched >=1 directory entry of the tree (which implies that every earlier component was matched by the tree); distinct by serialised case.",
     assumptions: &[
         "POSIX locale: results sorted by byte value",
         "read permission on directories is always granted (the simulated OS does not model it and the sandbox runs as root): unreadable-directory cases are not generated",
@@ -40,11 +40,18 @@ fn sq(s: &str) -> String {
     format!("'{s}'")
 }
 
+/// Permission bits of a directory: only the owner's execute bit decides whether the (owning,
+/// unprivileged) shell process may search it, whatever the bits of group and others say.
+fn dir_mode(search: bool, path: &str) -> u32 {
+    let k = path.len() % 3;
+    if search { [0o755, 0o700, 0o711][k] } else { [0o644, 0o655, 0o611][k] }
+}
+
 fn materialise(tree: &Tree, setup: &mut vsys::Setup) {
     for (path, node) in tree.flat() {
         let spec = match node {
             Node::File => vsys::FileSpec::Regular { content: String::new(), mode: 0o644, exec: false },
-            Node::Dir { search, .. } => vsys::FileSpec::Dir { mode: if *search { 0o755 } else { 0o644 } },
+            Node::Dir { search, .. } => vsys::FileSpec::Dir { mode: dir_mode(*search, &path) },
             Node::Link(t) => vsys::FileSpec::Symlink { target: t.clone() },
         };
         setup.files.push((path, spec));
@@ -60,7 +67,7 @@ fn show_tree(tree: &Tree) -> String {
         match n {
             Node::File => s.push_str(&format!("{p:?}")),
             Node::Dir { search: true, .. } => s.push_str(&format!("{p:?}/")),
-            Node::Dir { search: false, .. } => s.push_str(&format!("{p:?}/(mode 644)")),
+            Node::Dir { search: false, .. } => s.push_str(&format!("{p:?}/(mode {:o})", dir_mode(false, &p))),
             Node::Link(t) => s.push_str(&format!("{p:?}->{t:?}")),
         }
     }
